@@ -13,10 +13,11 @@ META = {
                    "parameters; x and raw hyper-parameters for the real-kernel scenarios) is a z3 real variable; the "
                    "posterior mean/covariance shadows are proved equal (z3 unsat of the negation, QF_NRA) to the "
                    "explicit conditional m*+K*x(Kxx+S)^-1(y-mx), K**-K*x(Kxx+S)^-1Kx* whose solves are themselves "
-                   "solver-checked against their defining equations. Shapes/settings are enumerated.",
+                   "solver-checked against their defining equations. Shapes/settings are enumerated. Multitask exact GPs (MultitaskMean, "
+                   "MultitaskGaussianLikelihood, interleaved MultitaskMultivariateNormal) with an arbitrary joint covariance over (point, task) pairs.",
     "bounds": {"quick": "n<=3 train, m<=2 test, d=1 labels (stub) / d=1 real RBF n=2; pairwise covering of 6 binary settings",
                "thorough": "n<=4, m<=3; full product of 6 binary settings at n=3,m=2; batch shapes (), (2,)"},
-    "outside": ["CG / Lanczos paths (max_cholesky_size(0)): iterative, float-residual controlled", "n>4",
+    "outside": ["CG / Lanczos paths (max_cholesky_size(0)): iterative, float-residual controlled", "n>4", "Kronecker-structured solves of real MultitaskKernel models (eigendecomposition)",
                 "floating-point rounding (reals-for-floats idealisation)"],
     "assumptions": ["reals for floats; float constants within 1e-15 of p/q (q<=1e6) are read as p/q",
                     "ATen kernels trusted by mathematical contract, cross-validated at the witness per call",
@@ -48,6 +49,8 @@ def scenarios(tier, seed):
         add("real_kernel", kernel="rbf", n=2, m=2, cfg={})
         add("real_kernel", kernel="rq", n=2, m=1, cfg={"fpv": True})
         add("replaced_targets", n=2, m=2)
+        add("multitask", n=2, t=2, m=1, cfg={})
+        add("multitask", n=1, t=3, m=2, cfg={"fpv": True, "detach": False})
     else:
         for cfg in all_configs(SETTINGS):
             add("stub_posterior", n=3, m=2, mean="constant", lik="gaussian", cfg=cfg, batch=0)
@@ -57,12 +60,23 @@ def scenarios(tier, seed):
                     lik=["gaussian", "fixed", "fixed_learn"][(i + n) % 3], cfg=cfg, batch=0)
             add("stub_posterior", n=2, m=2, mean="constant", lik=["gaussian", "fixed"][i % 2], cfg=cfg, batch=2)
         add("replaced_targets", n=3, m=2)
+        for cfg in all_cfgs[:8] if "all_cfgs" in dir() else [{}, {"fpv": True}, {"lazy": False}, {"detach": False}]:
+            add("multitask", n=2, t=2, m=1, cfg=cfg)
+        add("multitask", n=2, t=3, m=1, cfg={})
+        add("multitask", n=1, t=2, m=2, cfg={"fpv": True})
         for k in ["rbf", "rq"]:
             for cfg in [{}, {"fpv": True}, {"lazy": False}, {"fsolves": False}]:
                 add("real_kernel", kernel=k, n=2, m=2, cfg=cfg)
         # Matern (sqrt-distance atoms nested under Cholesky square roots) is only decided on the eager route
         add("real_kernel", kernel="matern", n=2, m=2, cfg={"lazy": False})
     return out
+
+
+def multitask(S, n, t, m, cfg):
+    """multitask exact GP (MultitaskMean, MultitaskGaussianLikelihood with task + global noise, arbitrary joint covariance over
+    (point, task) pairs in the interleaved layout): posterior and likelihood(posterior) = the explicit conditional"""
+    from .C16 import multitask_exact
+    multitask_exact(S, n, t, m, "|".join(["0" * t] * n), "ignore", None, cfg=cfg, through_likelihood=True)
 
 
 def stub_posterior(S, n, m, mean, lik, cfg, batch, small_noise=False):
